@@ -207,7 +207,13 @@ def _replay_case(args):
     return pipeline_prog.run_case(args)
 
 
-def replay_cases(ctx: Ctx) -> list[dict]:
+def replay_cases(ctx: Ctx, wide: bool = False) -> list[dict]:
+    if wide:  # all statement kinds (property read, nested class, enum, raising call), up to 4 statements
+        progs = [b["prog"] for b in ctx.behaviours("MC_PipelineProg", "MC_PipelineProg_wide.cfg")]
+        rng = ctx.rng("wide")
+        rng.shuffle(progs)
+        ctx.notes["replay_wide_programs_enumerated"] = len(progs)
+        return [{"tests": [p], "roundtrip": True} for p in (progs[:220] if ctx.quick else progs)]
     progs = [b["prog"] for b in ctx.behaviours("MC_PipelineProg", "MC_PipelineProg.cfg" if ctx.quick
                                                else "MC_PipelineProg_thorough.cfg")]
     ctx.notes["replay_programs_enumerated"] = len(progs)
@@ -225,11 +231,12 @@ def replay_cases(ctx: Ctx) -> list[dict]:
     return cases
 
 
-def replay_progs(ctx: Ctx, prop: str, clauses: set[str]) -> int:
+def replay_progs(ctx: Ctx, prop: str, clauses: set[str], kind=None) -> int:
     """TLC-enumerated test cases through the real assertion generation, `generator._minimize` (every
     strategy and direction) and export; PipelineTrace clauses on what comes out."""
-    cases = replay_cases(ctx)
+    cases = replay_cases(ctx, wide=prop == "C24")
     if prop == "C18":
+        cases = cases + [dict(c, roundtrip=False) for c in replay_cases(ctx, wide=True)[:150]]
         # assertions filtered irregularly, as the mutation-analysis based generation does
         cases = cases + [dict(c, mask=m) for c in cases for m in ("odd", "even")]
     if prop == "C22":
@@ -242,7 +249,7 @@ def replay_progs(ctx: Ctx, prop: str, clauses: set[str]) -> int:
     for c, r in zip(cases, results):
         by_cfg: dict[str, list] = {}
         for e in r["ev"]:
-            if e["ev"] != {"C19": "Asserted", "C22": "Minimize", "C18": "Test"}[prop]:
+            if e["ev"] != {"C19": "Asserted", "C22": "Minimize", "C18": "Test", "C24": "Reparse"}[prop]:
                 continue
             by_cfg.setdefault(e["cfg"], []).append(e)
         for cfg, evs in by_cfg.items():
@@ -257,6 +264,12 @@ def replay_progs(ctx: Ctx, prop: str, clauses: set[str]) -> int:
                 continue
             ev = traces[idx]["ev"][step - 1]
             strategy = cfg.split("/")[0]
+            if ev["ev"] == "Reparse":
+                sig_kind = kind({"cfg": {"module": "pp_sut"}}, ev)
+                ctx.bad(clause, f"{prop}/{clause}/{sig_kind}",
+                        f"test case {json.dumps(c['tests'])} ({cfg}): exported {ev['exported']} re-parsed {ev['reparsed']} "
+                        f"{ev['error']}", trace=traces[idx], behaviour={"replay": c, "cfg": cfg})
+                continue
             if ev["ev"] == "Test":
                 kind = f"replay/{ev['outcome'].split(':')[0]}"
                 detail = (f"suite {json.dumps(c['tests'])} (assertions kept on {c.get('mask') or 'all'} statements) minimised "
@@ -288,7 +301,7 @@ def replay_one(ctx: Ctx, rec: dict, prop: str, clauses: set[str]) -> int:
 
     beh = rec["behaviour"]
     r = _replay_case((beh["replay"], str(ctx.work / "pp")))
-    evs = [e for e in r["ev"] if e["cfg"] == beh["cfg"] and e["ev"] == {"C19": "Asserted", "C22": "Minimize", "C18": "Test"}[prop]]
+    evs = [e for e in r["ev"] if e["cfg"] == beh["cfg"] and e["ev"] == {"C19": "Asserted", "C22": "Minimize", "C18": "Test", "C24": "Reparse"}[prop]]
     print(json.dumps(r["baseline"], indent=1)[:2000])
     print(json.dumps(evs, indent=1)[:3000])
     v = ctx.validate("PipelineTrace", [{"ev": evs}])
